@@ -65,7 +65,7 @@ class Rule(JupyterMixin):
             rule_text = Text(characters * ((width // chars_len) + 1), self.style)
             rule_text.truncate(width)
             rule_text.plain = set_cell_size(rule_text.plain, width)
-            yield rule_text
+            yield from rule_text.render(console, end=rule_text.end)
             return
 
         if isinstance(self.title, Text):
@@ -100,7 +100,7 @@ class Rule(JupyterMixin):
             rule_text.append(title_text)
 
         rule_text.plain = set_cell_size(rule_text.plain, width)
-        yield rule_text
+        yield from rule_text.render(console, end=rule_text.end)
 
 
 if __name__ == "__main__":  # pragma: no cover
